@@ -40,6 +40,12 @@ def items(tier):
     for gen in (False, True):
         out.append(dict(kind="dense", id="dense-n2-%s-herm-default" % ("gen" if gen else "std"), n=2,
                         prob=("gen" if gen else "std") + "-herm", sort="default"))
+    # history on one module: symmetric matrix first, then a general one (and the reverse classes) in the same input signal
+    for n in (2, 3):
+        for prob in ("std-gen", "std-sym"):
+            if q and n == 3 and prob == "std-sym":
+                continue
+            out.append(dict(kind="dense", id="dense-n%d-%s-default-after-sym" % (n, prob), n=n, prob=prob, sort="default", after_sym=True))
     for sig in ("zero", "sym"):
         for gen in (False, True):
             for n in ((2,) if q else (2, 3)):
@@ -115,6 +121,20 @@ def _sorting(sort):
     return lambda W, Q: np.argsort(abs(W))
 
 
+_PRE = {2: ([[2, 1], [1, 2]], [1, 3], [[1, 1], [-1, 1]]),
+        3: ([[2, 1, 0], [1, 2, 0], [0, 0, 5]], [1, 3, 5], [[1, 1, 0], [-1, 1, 0], [0, 0, 1]])}
+
+
+def _prelude_matrix(V, n):
+    """A fixed symmetric matrix (rational eigenpairs) the module is evaluated with FIRST in the 'after-sym' histories."""
+    A0, W0, Q0 = _PRE[n]
+    if V.symbolic:
+        k = lambda v: R.of(v)
+        return (wrap(np.array([[k(v) for v in r] for r in A0], dtype=object)), [k(v) for v in W0],
+                wrap(np.array([[k(v) for v in r] for r in Q0], dtype=object)))
+    return np.array(A0, dtype=float), None, None
+
+
 def sc_dense(V, P, cfg):
     import pymoto as pym
     n, prob, sort = cfg["n"], cfg["prob"], cfg["sort"]
@@ -129,6 +149,16 @@ def sc_dense(V, P, cfg):
     if sf is not None:
         kw["sorting_func"] = sf
     m = pym.EigenSolve(sigs, **kw)
+    if cfg.get("after_sym"):
+        # history on one module: a first response() with a symmetric matrix, then the matrix of this item in the same signal
+        # (the class of the matrix may change between two evaluations: design-dependent damping, another load case, ...)
+        Ap, Wp, Qp = _prelude_matrix(V, n)
+        if V.symbolic:
+            from symx import factor
+            factor.register("eig", (Wp, Qp, np.array(np.asarray(Ap), dtype=object, copy=True), None))
+        sigs[0].state = Ap
+        m.response()
+        sigs[0].state = A
     if V.symbolic:
         from symx import factor
         W = V.reals("W", n)
@@ -405,6 +435,10 @@ def replay(cfg, label, env, case):
             if _sorting(cfg["sort"]) is not None:
                 kw["sorting_func"] = _sorting(cfg["sort"])
             m = pym.EigenSolve(sigs, **kw)
+            if cfg.get("after_sym"):
+                sigs[0].state = np.asfortranarray(_prelude_matrix(V, n)[0])
+                m.response()
+                sigs[0].state = A
             m.response()
             W, Q = m.sig_out[0].state, m.sig_out[1].state
             Bm = B0 if gen else np.eye(n)
